@@ -110,6 +110,11 @@ def s_apply(ctx, container_is_function=False):
                     t = Tok("new_init")
                     t.name = "w" if ctx.choose(2, "initializer name clashes with an existing one") == 1 else "fresh_w"
                     inits.append(t)
+                    # a replacement may bring several initializers, and a rule author may reuse one name for two of them
+                    if ctx.choose(2, "replacement has a second new initializer") == 1:
+                        t2 = Tok("new_init2")
+                        t2.name = t.name if ctx.choose(2, "the second one has the name of the first") == 1 else "other_w"
+                        inits.append(t2)
                 delta.fields.update(match=match, new_nodes=new_nodes, new_outputs=[Tok("new_out")], new_initializers=inits)
                 fired.append((rule, node, delta))
                 return delta
